@@ -272,3 +272,23 @@ example : ∀ t, (run (threadProg (fun i => i + 1) [[2, 0], [1]]) c0 [0, 1, 0, 1
     simp [run, step, threadProg, iterEvents, c0, upd, execEv]
 
 end SkNet.Topology.ParFor
+
+namespace SkNet.Topology.ParFor
+
+/-! ### why the descriptor must say "reduction": a shared accumulator loses updates -/
+
+/-- `acc[0] += 1` from two threads on the *same* location, as a load followed by a store -/
+def sharedProg : Nat → List Ev := fun t =>
+  if t < 2 then [.load 0, .store 0 (fun regs => regs.getLastD 0 + 1)] else []
+
+/-- thread after thread the two updates arrive; interleaved load-load-store-store one of them is lost -/
+theorem shared_accumulator_loses_update :
+    (run sharedProg c0 [0, 0, 1, 1]).mem 0 = 2 ∧ (run sharedProg c0 [0, 1, 0, 1]).mem 0 = 1 := by decide
+
+theorem sharedProg_not_raceFree : ¬ RaceFree sharedProg := by
+  intro h
+  exact h 0 1 0 (by decide)
+    ⟨.store 0 (fun regs => regs.getLastD 0 + 1), by simp [sharedProg], rfl, rfl⟩
+    ⟨.load 0, by simp [sharedProg], rfl⟩
+
+end SkNet.Topology.ParFor
